@@ -77,6 +77,51 @@ def order_rules(repo, res):
             res.add(Finding('T-ORDER', g.fullname, f'{name} reorder', g.loc,
                             f'_parse_fit_results must pass `{name}` through _order_by_id exactly once', {}))
 
+    order_typestate(repo, res, g)
+
+
+def order_typestate(repo, res, g):
+    """Order typestate in _parse_fit_results: group-ordered lists (the group_* parameters and everything accumulated from a
+    loop over them) become id-ordered only through _order_by_id/_ungroup; only id-ordered values may be stored in
+    self.fit_info or returned."""
+    def names(e):
+        return {n_.id for n_ in ast.walk(e) if isinstance(n_, ast.Name)}
+    grp = {p_ for p_ in g.params if p_.startswith('group_')}
+    if len(grp) < 2:
+        raise AnalysisError('vanished anchor: _parse_fit_results group_* parameters')
+    n_sinks = 0
+    for st in g.node.body:
+        if isinstance(st, ast.For) and names(st.iter) & grp:
+            for sub in ast.walk(st):
+                if isinstance(sub, ast.Call) and isinstance(sub.func, ast.Attribute) and sub.func.attr in ('append', 'extend') \
+                        and isinstance(sub.func.value, ast.Name):
+                    grp.add(sub.func.value.id)
+            continue
+        if isinstance(st, ast.Assign) and len(st.targets) == 1 and isinstance(st.targets[0], ast.Name):
+            src = unparse(st.value, 0)
+            if names(st.value) & grp and not ('self._order_by_id(' in src or 'self._ungroup(' in src):
+                grp.add(st.targets[0].id)
+            else:
+                grp.discard(st.targets[0].id)
+            continue
+        sink = None
+        if isinstance(st, ast.Assign) and len(st.targets) == 1 and isinstance(st.targets[0], ast.Subscript) \
+                and self_attr(st.targets[0].value) == 'fit_info':
+            sink = st.value
+        elif isinstance(st, ast.Return) and st.value is not None:
+            sink = st.value
+        if sink is not None:
+            n_sinks += 1
+            bad = sorted(names(sink) & grp)
+            res.oblige('T-ORDER', f'_parse_fit_results: `{norm_stmt_text(st)}` publishes an id-ordered value', not bad, nontrivial=True)
+            if bad:
+                res.add(Finding('T-ORDER', g.fullname, norm_stmt_text(st), f'{g.module.relpath}:{st.lineno}',
+                                f'_parse_fit_results publishes `{bad[0]}` at `{norm_stmt_text(st)}` while it is still in group (fit) order '
+                                f'(not passed through _order_by_id): per-source consumers (fit_error_indices, flags, result rows) index it '
+                                f'by source id', {}))
+    if n_sinks < 3:
+        raise AnalysisError('vanished anchor: _parse_fit_results publishes fewer than 3 values')
+
 
 def init_table_rules(repo, res):
     f = repo.get_function(f'{PP}._prepare_init_params')
@@ -88,7 +133,13 @@ def init_table_rules(repo, res):
             g = G.guard_of(node, f.node)
             atoms = G.atoms(g)
             # guarded by `<key> not in init_params.colnames` (or in the branch that just created the table)
-            ok = any(key in a and 'colnames' in a for a in atoms) or any('init_params is None' in a for a in atoms)
+            aliases = ['init_params.colnames'] + [a_.targets[0].id for a_ in ast.walk(f.node) if isinstance(a_, ast.Assign)
+                                                 and len(a_.targets) == 1 and isinstance(a_.targets[0], ast.Name)
+                                                 and unparse(a_.value, 0) == 'init_params.colnames']
+            supplied = [('atom', f'{key} in {al}') for al in aliases]
+            created = ('atom', 'init_params is None')
+            # the guard must ENTAIL "not supplied" (or "table created here"): g & supplied & ~created unsatisfiable
+            ok = G.satisfiable(G.conj([g] + supplied + [G.neg(created)])) is None
             res.oblige('USERCOL', f'_prepare_init_params stores column {key} only when the caller did not supply it', ok, nontrivial=True,
                        sample={'column': key, 'guard': G.show(g)[:160]})
             if not ok:
